@@ -173,6 +173,30 @@ func changeClass(t Task, a, b []fpEnt, at int64) string {
 	return "other"
 }
 
+// method timestamp after an unsuccessful attempt: is the marker still there (the attempt's record
+// was not dropped), or is the task judged by its generates files alone (make-like comparison)
+func markerKept(t Task, before Snapshot) string {
+	if t.Method != "timestamp" {
+		return ""
+	}
+	for _, e := range before.Tss {
+		if e.K == normName(t.defName()) {
+			return ":marker-kept"
+		}
+	}
+	return ""
+}
+
+// label of a skip that follows an unsuccessful attempt (failed, declined, killed).  Method timestamp
+// with the marker gone is one class whatever the outcome was: the task is judged by its generates
+// files alone (the recorded make-like residual, signature skip-after-failed:timestamp).
+func afterUnsuccessful(res string, t Task, before Snapshot) string {
+	if t.Method == "timestamp" && markerKept(t, before) == "" {
+		return "skip-after-failed:timestamp"
+	}
+	return "skip-after-" + res + ":" + t.Method + markerKept(t, before)
+}
+
 func isAttempt(o Op, res string) bool {
 	if o.Mode != "run" && o.Mode != "force" {
 		return false
@@ -246,7 +270,7 @@ func Diagnose(proj []Task, init Snapshot, steps []Step) map[string]string {
 					// --list --json ran its (non-dry) check after the last attempt of this task
 					set("c04", "skip-after-listjson:"+t.Method)
 				case has && !a.ok:
-					set("c04", "skip-after-"+a.res+":"+t.Method)
+					set("c04", afterUnsuccessful(a.res, t, before))
 				case has && a.ok && !gens:
 					set("c04", "skip-generates-missing:"+t.Method)
 				case len(att) == 0:
@@ -258,7 +282,7 @@ func Diagnose(proj []Task, init Snapshot, steps []Step) map[string]string {
 					} else {
 						// the task's most recent attempt (at another fingerprint) did not succeed and
 						// it is skipped all the same: the state that attempt left behind
-						set("c04", "skip-after-"+last.res+":"+t.Method)
+						set("c04", afterUnsuccessful(last.res, t, before))
 					}
 				}
 			}
